@@ -10,19 +10,19 @@ CHECKS = {
    note="Trusts the reference model's failure record (operation, operands, active calls per coroutine) and the report grammar read off the documented sample; context addresses are not compared.",
    technique="bounded exhaustive enumeration of failing programs with the report text parsed and compared against an executable reference model's failure trace"),
  "C17": dict(level="exploration", design="DESIGN.md §4 C17",
-   text="The contracts of the eight built-ins are checked on every element of finite argument alphabets: toa against write for 57 values of every kind and nesting, aton(toa(n)) == n for boundary ints and 210 finite floats, fromto over all pairs in -3..3 and at both ends of the int range, elems/indices (alone and zipped) over every array and string of length 0..4 (also after the program rebinds another built-in's name), wrong kinds and arities, and - through the built binary - every stdin of up to 3 lines (with and without final line break) against 0..4 read() calls in -eval and file mode, plus exit() with valid and invalid arguments.",
+   text="The contracts of the eight built-ins are checked on every element of finite argument alphabets: toa against write for 57 values of every kind and nesting, aton(toa(n)) == n for boundary ints and 210 finite floats, fromto over all pairs in -3..3 and at both ends of the int range, elems/indices (alone and zipped) over every array and string of length 0..4 (also after the program rebinds another built-in's name), wrong kinds and arities, fromto/elems/indices running three and four at once after a user generator over a built-in one was abandoned and its contexts reused, and - through the built binary - every stdin of up to 3 lines (with and without final line break) against 0..4 read() calls in -eval and file mode, plus exit() with valid and invalid arguments.",
    note="Expected results are computed by the reference model's value rendering and the stated contracts; argument values outside the alphabets are not covered.",
    technique="exhaustive enumeration of finite argument and input-history alphabets against the stated contracts"),
  "C16": dict(level="model_checking", design="DESIGN.md §4 C16",
-   text="(a) Explicit-state search over every sequence of up to 4 (5) script lines from a 21-line alphabet (block openers/closers/else, array literals and strings split over lines, strings and comments containing every delimiter, escaped quotes and backslashes, blank lines) fed to the real read-eval loop through the real file reader (with and without final newline) and a REPL-style line reader with a recording parser; the inputs handed to the parser must equal, token for token, the statements a lexer-aware splitter finds. (b) Every script of up to 2 (3) statements from a 34-statement alphabet run through the built binary in -eval (single statements), piped-REPL and file mode; each mode's output must equal what in-process statement-by-statement execution predicts.",
+   text="(a) Explicit-state search over every sequence of up to 4 (5) script lines from a 21-line alphabet (block openers/closers/else, array literals and strings split over lines, strings and comments containing every delimiter, escaped quotes and backslashes, blank lines) fed to the real read-eval loop through the real file reader (with and without final newline) and a REPL-style line reader with a recording parser; the inputs handed to the parser must equal, token for token, the statements a lexer-aware splitter finds. (b) Every script of up to 2 (3) statements from a 43-statement alphabet (including lines holding two statements) run through the built binary in -eval (single statements), piped-REPL and file mode; each mode's output must equal what in-process statement-by-statement execution predicts.",
    note="The splitter model and the in-process expected output are harness side; ill-formed line sequences are skipped and counted; runtime error reports are compared on their first line.",
    technique="explicit-state exploration of line sequences on the real read-eval loop against a splitter model + exhaustive script x run-mode enumeration on the built binary"),
  "C18": dict(level="model_checking", design="DESIGN.md §4 C18",
-   text="Explicit-state breadth-first search over every legal sequence (depth 5, thorough 6) of 37 memory operations as the VM issues them - push bursts crossing every 128-slot boundary, pops, frame capture, calls with narrow and wide frames and old/new captured frames, returns, local and global writes, forking a context into a fresh or a recycled memory, switching, destroying - executed on the real memory.Type by replaying each path on a fresh instance; after every transition the whole live content of every memory, the accessor views and every captured frame are compared with a list-of-frames model. Plus recursion to depth 100000.",
+   text="Explicit-state breadth-first search over every legal sequence (depth 5, thorough 6) of 37 memory operations as the VM issues them - push bursts crossing every 128-slot boundary, pops, frame capture, calls with narrow and wide frames and old/new captured frames, returns, local and global writes, forking a context into a fresh or a recycled memory, switching, destroying - executed on the real memory.Type by replaying each path on a fresh instance; after every transition the whole live content of every memory, the accessor views and every captured frame are compared with a list-of-frames model. Plus program-level families compared with the reference model (slot allocation of every order of variable-introducing constructs; closures created in generator contexts at nesting 0..2, abandoned / finished / ended by return, read again after further loops recycled the contexts; names of an outer function two levels in; captured variables updated after stack reallocation in sessions whose earlier statement failed 0..60 calls deep) and recursion to depth 100000.",
    note="State key = bookkeeping only (sound by data independence); bounded to 3 live memories, 3 frames and 3 captured frames per state; sequences longer than the depth bound are not covered.",
    technique="explicit-state BFS over the real memory object's operations (path replay) against a reference model, with canonical state deduplication"),
  "C03": dict(level="exploration", design="DESIGN.md §4 C03",
-   text="Differential purity check on the real VM: each of a set of side-effect-free functions (directed shapes around closures, captured-variable updates after stack growth, loops, generators, wide frames at every allocation boundary, plus every expression body of up to 2 (3) nodes) is called in 15 dynamic contexts after every history of up to 2 (3) steps from a 9-step alphabet; each observation must equal what the same call gives as the only statement of a fresh session, which is anchored once per function in the reference model.",
+   text="Differential purity check on the real VM: each of a set of side-effect-free functions (directed shapes around closures, captured-variable updates after stack growth, loops, generators, wide frames at every allocation boundary, plus every expression body of up to 2 (3) nodes) is called in 21 dynamic contexts (including depth sweeps 0..399 and generators run after other loops of the same statement) after every history of up to 2 (3) steps from a 10-step alphabet; each observation must equal what the same call gives as the only statement of a fresh session, which is anchored once per function in the reference model.",
    note="Trusts the reference model only for the baseline of each function; all other comparisons are between runs of the real VM. Functions, contexts and histories outside the alphabets are not covered.",
    technique="bounded exhaustive enumeration of function x context x history with a differential oracle on the real code"),
  "C04": dict(level="exploration", design="DESIGN.md §4 C04",
@@ -30,23 +30,23 @@ CHECKS = {
    note="Trusts the reference model's scoping rules (own, one-level captured, global); programs whose reads are ambiguous between the lexical and the dynamic reading (D-use-before-def) are skipped and counted.",
    technique="exhaustive enumeration of a finite product of scope skeletons with tagged writes against an executable reference model"),
  "C08": dict(level="model_checking", design="DESIGN.md §4 C08",
-   text="Explicit-state search over session histories: every sequence of up to 3 (4) statements from an alphabet of 31 (good statements; lexer, parser and unbalanced-input errors; every runtime error class at top level, at depth, in loop bodies, in suspended and nested generators, in a zip, in closures, with partial global effects; a top-level return out of nested loops) is replayed on a fresh real VM and followed by 14 observers; each statement is compared with the reference model, the machine must be at rest after every statement (hooks), and the observers must answer exactly as in the failure-free twin session holding the same globals.",
+   text="Explicit-state search over session histories: every sequence of up to 3 (4) statements from an alphabet of 33 (good statements; lexer, parser and unbalanced-input errors; every runtime error class at top level, at depth, in loop bodies, in suspended and nested generators, in a zip, in closures, with partial global effects; a top-level return out of nested loops) is replayed on a fresh real VM and followed by 14 observers; each statement is compared with the reference model, the machine must be at rest after every statement (hooks), and the observers must answer exactly as in the failure-free twin session holding the same globals.",
    note="States (reference global store + machine state) are reported for coverage; every history is executed in full on the real VM (traces_validated_against_impl = histories). Longer histories and other failing statements are not covered.",
    technique="explicit-state exploration of statement histories on the real session object with a reference model, hook invariants and a differential failure-free twin"),
  "C10": dict(level="model_checking", design="DESIGN.md §4 C10",
-   text="Explicit-state search over every sequence of up to 3 (4) of 48 array/string operations (two of them ending in a runtime error after redefining functions that hold literals) on seven globals (literals at top level / in functions / in loops, all slices, concatenations of slices, nested arrays, passing, iterating, capture in closures and generators); after every operation an observer evaluating every variable, the accumulated earlier results, a literal-returning function and a closure is compared between the real VM and a reference model that copies always. Sequences of length <= 2 and all sequences containing a failing statement are also typed into the real read-eval loop, whose echo of every observer must equal the in-process value. States are (renderings, len/cap, backing-array sharing relation) read through the value hook.",
+   text="Explicit-state search over every sequence of up to 3 (4) of 57 array/string operations (arrays of 33-40 elements, literals whose later element re-enters the same literal through recursion or a suspended generator, one array extended under two names inside a function, two statements ending in a runtime error after redefining functions that hold literals) on seven globals (literals at top level / in functions / in loops, all slices, concatenations of slices, nested arrays, passing, iterating, capture in closures and generators); after every operation an observer evaluating every variable, the accumulated earlier results, a literal-returning function and a closure is compared between the real VM and a reference model that copies always. Sequences of length <= 2 and all sequences containing a failing statement are also typed into the real read-eval loop, whose echo of every observer must equal the in-process value. States are (renderings, len/cap, backing-array sharing relation) read through the value hook.",
    note="distinct_nontrivial counts sequences after which two live arrays really share a backing array with spare capacity; longer sequences and other operations are not covered.",
    technique="explicit-state exploration of operation sequences on the real VM against a copying reference model, with sharing measured through a hook"),
  "C09": dict(level="exploration", design="DESIGN.md §4 C09",
-   text="Through read-only hooks the machine state is read after every statement of (a) every statement form in every statement context and the generator/body/placement loops (sp, frame depth, closure depth, live contexts, main ip must be back at rest) and (b) every statement form as body of every loop driver run with 5 and with 300 (600) iterations, where peak operand-stack use of main and generator contexts, peak live contexts and stack length must not grow with the iteration count.",
+   text="Through read-only hooks the machine state is read after every statement of (a) every statement form (including every logic operator over every pair of operand sources and truth values) in every statement context and the generator/body/placement loops (sp, frame depth, closure depth, live contexts, main ip must be back at rest) and (b) every statement form as body of every loop driver run with 5 and with 300 (600) iterations, where peak operand-stack use of main and generator contexts, peak live contexts and stack length must not grow with the iteration count.",
    note="Observation is through the verif hooks (memory.VerifState, vm.VerifLiveContexts, step callback); sessions that crash or exhaust fuel are left to C05.",
    technique="bounded exhaustive enumeration of statement forms x contexts x loop drivers with state invariants read through hooks and a differential iteration-count oracle"),
  "C12": dict(level="exploration", design="DESIGN.md §4 C12",
-   text="Differential check on the real pipeline only: for every core expression of up to 3 (4) nodes and every value kind, two programs that differ only in a placement selecting another code-generation strategy (used/discarded, function tail/non-tail/top level, loop body, operand depth 1..3, call argument, array element, assignment, increment forms, common operand shortcut, negated conditions, and every non-boolean condition in every statement context) must produce the same output, error class and value.",
+   text="Differential check on the real pipeline only: for every core expression of up to 3 (4) nodes and every value kind, two programs that differ only in a placement selecting another code-generation strategy (used/discarded, function tail/non-tail/top level, loop body, operand depth 1..3, call argument, array element, assignment, increment forms, common operand shortcut, negated conditions, self-increments by other steps than the int 1 with the result divided to tell int from float, every comparison of 8 operands incl. NaN under a negation in 8 placements, and every non-boolean condition in every statement context) must produce the same output, error class and value.",
    note="No reference model is involved; pairs are constructed so that the language rules make both members equivalent (tolerance T-nil-bool for nil in boolean positions).",
    technique="bounded exhaustive enumeration of expression x placement pairs with a differential oracle between two runs of the real code"),
  "C02": dict(level="exploration", design="DESIGN.md §4 C02",
-   text="Every loop of the product iterator expression (closure of 11 base generators under map/filter/take/chain) x body step from the collision alphabet (one per resource shared between generator and body contexts) x placement (top level, call depth 1..5, recursion, inside another loop, inside another generator) x preceding history, plus all 2- and 3-iterator zips, is executed on the real VM and on the coroutine reference model; bound values, interleaved output, loop results and session values must agree.",
+   text="Every loop of the product iterator expression (closure of 11 base generators under map/filter/take/chain) x body step from the collision alphabet (one per resource shared between generator and body contexts) x placement (top level, call depth 1..5, recursion, inside another loop, inside another generator) x preceding history, plus all 2-iterator zips and 3- and 4-iterator zips over the base generators, is executed on the real VM and on the coroutine reference model; bound values, interleaved output, loop results and session values must agree.",
    note="Trusts the reference model's coroutine reading of for/yield (calibrated on all TestCalc iterator rows and the Readme examples); generator-side reads the description leaves open (D-fork) are skipped.",
    technique="bounded exhaustive enumeration of generator/body/placement/history combinations with conformance checking against an executable reference model"),
  "C05": dict(level="exploration", design="DESIGN.md §4 C05",
@@ -54,7 +54,7 @@ CHECKS = {
    note="Go panics are recovered in-process and attributed by call site; fatal runtime errors kill a worker and are attributed through its progress record. Termination is judged with instruction fuel derived from the reference model's step count.",
    technique="bounded exhaustive enumeration of accepted programs under instruction fuel with a crash/termination oracle"),
  "C15": dict(level="exploration", design="DESIGN.md §4 C15",
-   text="Every operand encoding (3 selectors x 8 kinds x every address from -65540 to 65540), every opcode value combined with every kind triple and boundary address triple, and function values at the boundaries of their fields are encoded and decoded on the real packages; sessions and programs whose constants, name references, jump distances, parameter and local counts cross 2^15 (thorough: 2^16) are run statement by statement through the real processInput path, where each statement must give its value or be refused cleanly.",
+   text="Every operand encoding (3 selectors x 8 kinds x every address from -65540 to 65540), every opcode value combined with every kind triple and boundary address triple, and function values at the boundaries of their fields are encoded and decoded on the real packages; sessions and programs whose constants, name references, jump distances, parameter and local counts cross 2^15 (thorough: 2^16) are run statement by statement through the real processInput path, where each statement must give its value or be refused cleanly; also with a small definition earlier on the same line, and with a global first mentioned in the refused statement and other globals bound afterwards.",
    note="Sizes beyond 2^16+2 are not covered; a refusal is recognised by its shape (error line, segments unchanged), not by a fixed message.",
    technique="exhaustive enumeration of the encoder input space + boundary-crossing session families on the real read-eval path"),
  "C07": dict(level="exploration", design="DESIGN.md §4 C07",
